@@ -1,6 +1,6 @@
 (* run/<Cxx>: every recorded run replayed against the model and judged by the monitors. *)
 From Coq Require Import String List Bool Arith ZArith.
-From Verif Require Import Base.ListX Base.Json Base.Free Pub.Events Pub.Replay Pub.Monitors Pub.SideEffect Pub.BaseActor Pub.Util Pub.Value Pub.EffectSpec Pub.Fed Pub.Soc Base.Time Pub.DeliverySpec Pub.CreateSpec.
+From Verif Require Import Base.ListX Base.Json Base.Free Pub.Events Pub.Replay Pub.Monitors Pub.SideEffect Pub.BaseActor Pub.Util Pub.Value Pub.EffectSpec Pub.Fed Pub.Soc Base.Time Pub.DeliverySpec Pub.CreateSpec Pub.Calls Pub.ForwardSpec.
 From Verif Require Import Proofs.FedProofs.
 Require Import Run.observed.
 Import ListNotations.
@@ -471,6 +471,37 @@ Definition sequence_bad := Eval vm_compute in
                              else if Nat.ltb 1 (fold_left (fun n u => n + count_rec u) us 0) then (1, "one activity was recorded as seen more than once over repeated deliveries")
                              else (0, "")))
          (combine (seq 0 (length sequences)) sequences)).
+(* C17, both directions, on the WORLD the run started from (what was owned, stored and dereferenceable; the depth limit):
+   the specification's must_forward (Pub/ForwardSpec.v; C17_iff) against what the implementation did *)
+Definition world_of (x : list string * list (string * json) * list (string * ans) * nat) (a : json) : fworld :=
+  let '(owned, store, remote, depth) := x in
+  {| fw_owns := fun i => mem i owned;
+     fw_deref := fun u => match assoc u remote with Some (AJson j) => DDoc j | Some ANotJson => DNotJson | _ => DFailed end;
+     fw_get := fun i => match assoc i store with Some j => j | None => JNull end;
+     fw_seen := match assoc (id_str a) store with Some _ => true | None => false end;
+     fw_depth := depth; fw_filter := fun _ => [] |}.
+Definition iff_verdict (p : nat * (list string * list (string * json) * list (string * ans) * nat)) : nat * string :=
+  match nth_error observed (fst p) with
+  | Some u =>
+      match inbox_activity u with
+      | Some a =>
+          let ok200 := existsb (fun q => match fst q with EWriteHeader n => Nat.eqb n 200 | _ => false end) (u_trace u) in
+          if negb ok200 then (0, "") else
+          let forwarded := existsb (fun q => match fst q with EBatchDeliver _ _ => true | _ => false end) (from_exists (u_trace u)) in
+          let want := must_forward (world_of (snd p) a) a in
+          if Bool.eqb want forwarded then (0, "")
+          else if want then (1, "not seen before, an owned collection addressed and an owned value within the depth limit in this world - but the activity was not forwarded")
+          else (1, "forwarded although in this world it was seen before, no owned collection is addressed or no owned value lies within the depth limit")
+      | None => (0, "")
+      end
+  | None => (0, "")
+  end.
+Definition iff_bad := Eval vm_compute in
+  filter (fun x => Nat.eqb (fst (snd x)) 1) (map (fun p => (fst p, iff_verdict p)) worlds).
+Definition iff_stats := Eval vm_compute in
+  (length worlds, length (filter (fun p => match nth_error observed (fst p) with
+                                           | Some u => match inbox_activity u with Some a => must_forward (world_of (snd p) a) a | None => false end
+                                           | None => false end) worlds)).
 Definition forward_stats := Eval vm_compute in
   (length (filter (fun u => Nat.ltb 0 (count_fwd u)) observed), length sequences,
    length (filter (fun u => existsb (fun p => match fst p with EApp n _ => String.eqb n "FilterForwarding" | _ => false end) (u_trace u)) observed)).
@@ -491,6 +522,8 @@ Print effects_bad.
 Print effects_stats.
 Print fed_bad.
 Print forward_bad.
+Print iff_bad.
+Print iff_stats.
 Print sequence_bad.
 Print forward_stats.
 Print authority_bad.
